@@ -52,4 +52,14 @@ def evalNamed (env : Env) (db : Db) (name : Name) (outer : Core) : Except Err (L
   | some (.base i) => outer.eval { tables := db.tables ++ [((db.tables[i]?).map (·.1) |>.getD 0, (db.tables[i]?).map (·.2) |>.getD [])] }
   | none => .error .unsupported
 
+/-- a chain of definitions (`WITH a AS (…), b AS (… FROM a) …`, or a view over a view): each
+body is evaluated on the database extended with the results of the bodies before it (definition
+number `k` becomes table `db.tables.length + k`), the outer query on the database extended with
+all of them -/
+def evalChain (db : Db) : List Core → Core → Except Err (List Row)
+  | [], outer => outer.eval db
+  | b :: rest, outer => do
+    let rows ← b.eval db
+    evalChain { tables := db.tables ++ [(b.select.length, rows)] } rest outer
+
 end VibeProof.View
